@@ -150,6 +150,9 @@ def gen(rng, k):
                     target = "/" + target
                 if r.random() < 0.1:
                     target = ""            # "http://host:port" without a path
+                elif r.random() < 0.25:
+                    # colons and brackets AFTER the authority (in the query) are not the port separator
+                    target += ("&" if "?" in target else "?") + r.choice(["t=12:30", "u=a:b:c", "x=[::1]", "p=:", "q=]:8"])
                 rq = base[:sp1 + 1] + ("http://" + hostport + target).encode("latin1") + base[sp2:]
             reqs.append(rq)
             stream += rq
